@@ -35,10 +35,42 @@ def budget(tier):
     return {"examples": 4000 if tier == "quick" else 100000}
 
 
+def _fine_box(dim, n):
+    """box with every face subdivided into n x n squares (2 n^2 outward triangles per face)"""
+    a, b, c = (x / 2 for x in dim)
+    verts, index, faces = [], {}, []
+
+    def vid(p):
+        key = tuple(round(x, 12) for x in p)
+        if key not in index:
+            index[key] = len(verts)
+            verts.append([float(x) for x in p])
+        return index[key]
+
+    half = (a, b, c)
+    for ax in range(3):
+        u, v = (ax + 1) % 3, (ax + 2) % 3
+        for sg in (1.0, -1.0):
+            for i in range(n):
+                for j in range(n):
+                    quad = []
+                    for di, dj in ((0, 0), (1, 0), (1, 1), (0, 1)):
+                        p = [0.0, 0.0, 0.0]
+                        p[ax] = sg * half[ax]
+                        p[u] = -half[u] + 2 * half[u] * (i + di) / n
+                        p[v] = -half[v] + 2 * half[v] * (j + dj) / n
+                        quad.append(vid(p))
+                    tri = [[quad[0], quad[1], quad[2]], [quad[0], quad[2], quad[3]]]
+                    if sg < 0:
+                        tri = [[t[0], t[2], t[1]] for t in tri]
+                    faces.extend(tri)
+    return verts, faces
+
+
 @st.composite
 def case_strategy(draw):
     size = float(10.0 ** gen.r6(draw(gen.ufloat(-2, 2))))
-    derive = draw(st.sampled_from(["none", "none", "none", "open", "disconnected", "intersecting", "disjoint_boxes", "rod_plate", "hull_corner"]))
+    derive = draw(st.sampled_from(["none", "none", "none", "open", "disconnected", "intersecting", "disjoint_boxes", "rod_plate", "hull_corner", "shallow_apex"]))
     base = None
     if derive == "hull_corner":
         # very different facet sizes: a coarse box (12 large facets) and a fine convex body (many small facets) that
@@ -62,6 +94,23 @@ def case_strategy(draw):
             else:
                 V, F = Vb_ + Vh, Fb_ + [[i + len(Vb_) for i in f] for f in Fh]
             base = {"vertices": V, "faces": F, "mesh_kind": "hull_corner"}
+    if derive == "shallow_apex":
+        # a shallow interpenetration into a finely meshed face: the apex of a pyramid dips a depth of 3e-4..1e-3 of the
+        # size through the top face of a box whose faces are subdivided n x n (the pierced facets are small)
+        d1 = [gen.r6(size * draw(gen.ufloat(0.7, 1.0))) for _ in range(3)]
+        n = draw(st.integers(5, 10))
+        Vf, Ff = _fine_box(d1, n)
+        depth = size * 10.0 ** draw(gen.ufloat(-3.5, -3.0))
+        ax, ay = (gen.r6(d1[0] * draw(gen.ufloat(-0.3, 0.3))), gen.r6(d1[1] * draw(gen.ufloat(-0.3, 0.3))))
+        apex = [ax + 0.0137 * d1[0] / n, ay + 0.0291 * d1[1] / n, d1[2] / 2 - depth]
+        hgt, w = 0.4 * size, 0.25 * size
+        Vp = [apex, [apex[0] - w, apex[1] - 0.8 * w, apex[2] + hgt], [apex[0] + 0.9 * w, apex[1] - w, apex[2] + hgt], [apex[0] + 0.1 * w, apex[1] + w, apex[2] + hgt]]
+        Fp = geom.orient_outward(np.array(Vp), [[0, 1, 2], [0, 2, 3], [0, 3, 1], [1, 3, 2]]).tolist()
+        if draw(st.booleans()):
+            V, F = Vp + Vf, Fp + [[i + 4 for i in f] for f in Ff]
+        else:
+            V, F = Vf + Vp, Ff + [[i + len(Vf) for i in f] for f in Fp]
+        base = {"vertices": V, "faces": F, "mesh_kind": "shallow_apex"}
     if base is not None:
         pass
     elif derive == "rod_plate":
@@ -93,7 +142,7 @@ def case_strategy(draw):
         F = F1 + [[i + len(V1) for i in f] for f in F2]
         base = {"vertices": V, "faces": F, "mesh_kind": derive}
     else:
-        g = draw(gen.mesh_geometry(L=size))
+        g = draw(gen.mesh_geometry(L=size, kinds=("hull", "box", "prism", "nonconvex", "nonconvex")))
         base = {"vertices": g["vertices"], "faces": g["faces"], "mesh_kind": g["mesh_kind"]}
         if derive == "disconnected":
             V = np.asarray(base["vertices"], dtype=float)
@@ -230,13 +279,13 @@ def run_case(case, ctx):
     mesh = r.value
     want_open, nparts = _topology(V, F)
     want_disc = nparts > 1
-    want_int = derive in ("intersecting", "rod_plate", "hull_corner")
+    want_int = derive in ("intersecting", "rod_plate", "hull_corner", "shallow_apex")
     if mesh.status_open is not want_open and mesh.status_open != want_open:
         out.append(Violation({**sig0, "sub": "status_open", "expected": want_open}, f"status_open={mesh.status_open}, edge multiset says open={want_open}"))
     if mesh.status_disconnected != want_disc:
         out.append(Violation({**sig0, "sub": "status_disconnected", "expected": want_disc},
                              f"status_disconnected={mesh.status_disconnected}, union-find finds {nparts} part(s)"))
-    if derive in ("intersecting", "rod_plate", "hull_corner", "disjoint_boxes", "none", "disconnected") and not want_open:
+    if derive in ("intersecting", "rod_plate", "hull_corner", "shallow_apex", "disjoint_boxes", "none", "disconnected") and not want_open:
         if mesh.status_selfintersecting != want_int:
             out.append(Violation({**sig0, "sub": "status_selfintersecting", "expected": want_int},
                                  f"status_selfintersecting={mesh.status_selfintersecting}, by construction {want_int} ({case['base']['mesh_kind']})"))
